@@ -359,6 +359,10 @@ def c02(tier, seed):
                             tier=tr, n=n, fam=fam, mem=mem_for(n), timeout=900 if n <= 8 else 3000,
                             covers={"reached": "SATISFIED", "symmetric with all-ones mask": "SATISFIED"},
                             what="%s n=%d: every named constructor with its parameter ranging over all usize, Default, and LutN->Lut conversion produce well-formed tables" % (tname, n)))
+            if kind == "s" and n <= 6:
+                out.append(spec("verif_c02", "c02.rs", "c02_step_tryfrom", "c02_step_tryfrom_%s" % fam, [fam], 12,
+                                tier="quick", n=n, fam=fam,
+                                what="Lut%d::try_from(Lut of every size 0..=6 with arbitrary well-formed contents): Ok exactly for the same size, and then a well-formed table with the same blocks" % n))
             if n <= 9:
                 out.append(spec("verif_c02", "c02.rs", "c02_step_iter", "c02_step_iter_%s" % fam, [fam], 8 * T(n) + 2,
                                 tier=tr, n=n, fam=fam, mem=mem_for(n),
